@@ -195,9 +195,9 @@ def nested_owner_cases(kmax, mode):
 
 def C03(tier, rng):
     cs = []
-    trips = layouts(rng, sz(tier, 2000, 30000))
+    trips = layouts(rng, sz(tier, 6000, 30000))
     cs += [msg_cases(t, 'valid') for t in trips]
-    cs += malformed(rng, trips[:sz(tier, 1500, 15000)], per_len=10, per_trunc=6, flips=6)
+    cs += malformed(rng, trips[:sz(tier, 4000, 15000)], per_len=10, per_trunc=6, flips=6)
     cs += class_cases()
     cs += dup_param_cases(rng)
     for total in (254, 255, 256, 257):
@@ -255,7 +255,7 @@ def dup_param_cases(rng):
 
 def C04(tier, rng):
     cs = []
-    trips = layouts(rng, sz(tier, 4000, 60000))
+    trips = layouts(rng, sz(tier, 20000, 80000))
     cs += [msg_cases(t, 'layout') for t in trips]
     for m in boundary_msgs(rng):
         for L in (Layout(), Layout(random.Random(1), compress=1.0, flipcase=0.5, pad_addr=1.0, shuffle_params=True)):
@@ -283,7 +283,7 @@ def C04(tier, rng):
 
 def C09(tier, rng):
     cs = []
-    trips = layouts(rng, sz(tier, 1500, 12000), maxrr=3)
+    trips = layouts(rng, sz(tier, 2500, 12000), maxrr=3)
     for m, b, r in trips:
         cs.append(Case('dec.dns %s' % hx(b), 'valid', exp=abs_msg_text(m)))
         per = None if tier == 'thorough' else 24
